@@ -6,7 +6,7 @@
 
    Definitions only.  The bidirectional heuristic MNCO_bidir is NOT modelled: its output is
    checked by the validator [valid_bidir] defined here and proved sound in ProofsBidir.v. *)
-From Coq Require Import ZArith List Bool Arith.
+From Coq Require Import ZArith List Bool Arith Uint63.
 From OMV Require Import Base.Val.
 Import ListNotations.
 Open Scope nat_scope.
@@ -294,38 +294,43 @@ Definition pattern_of_code (nrows ncols : nat) (code : Z) : pattern :=
   map (fun r => map (fun c => Z.testbit code (Z.of_nat (r * ncols + c))) (seq 0 ncols))
       (seq 0 nrows).
 
-(* ---- compact integer encoding of the case data (large list literals are slow to elaborate) ---- *)
+(* ---- compact encoding of the case data: streams of 10-bit symbols packed six to a primitive
+   63-bit integer (ordinary number literals are slow to elaborate; primitive ones are not) ---- *)
 
-(* digits (least significant first) of z in base B, below a top sentinel digit 1 *)
-Fixpoint digits_fuel (fuel : nat) (B z : Z) : list Z :=
-  match fuel with
-  | O => []
-  | S k => if (z <=? 1)%Z then [] else (z mod B)%Z :: digits_fuel k B (z / B)%Z
-  end.
-Definition digits (B z : Z) : list Z := digits_fuel (S (Z.to_nat (Z.log2 z))) B z.
+Definition word_symbols (w : Z) : list Z :=
+  [(w mod 1024)%Z; ((w / 1024) mod 1024)%Z; ((w / 1048576) mod 1024)%Z;
+   ((w / 1073741824) mod 1024)%Z; ((w / 1099511627776) mod 1024)%Z;
+   ((w / 1125899906842624) mod 1024)%Z].
 
-Definition undigits (B : Z) (l : list Z) : Z := fold_right (fun d acc => (d + B * acc)%Z) 1%Z l.
+(* symbol 1023 is padding *)
+Definition symbols (ws : list Uint63.int) : list Z :=
+  filter (fun d => negb (d =? 1023)%Z) (flat_map (fun w => word_symbols (Uint63.to_Z w)) ws).
 
-(* list of lists of naturals: every element x is the digit x+1, every list is closed by a digit 0 *)
+(* the pattern's bit code: 60 bits per word, least significant word first *)
+Definition code_of_words (ws : list Uint63.int) : Z :=
+  fold_right (fun w acc => (Uint63.to_Z w + 1152921504606846976 * acc)%Z) 0%Z ws.
+
+(* list of lists of naturals: every element x is the symbol x+1, every list is closed by a 0 *)
 Fixpoint split0 (cur : list nat) (l : list Z) : list (list nat) :=
   match l with
   | [] => []
   | d :: t => if (d =? 0)%Z then rev cur :: split0 [] t else split0 (Z.to_nat (d - 1) :: cur) t
   end.
-Definition dec_groups (z : Z) : list (list nat) := split0 [] (digits 1024 z).
-Definition enc_groups (g : list (list nat)) : Z :=
-  undigits 1024 (concat (map (fun l => map (fun x => Z.of_nat (S x)) l ++ [0%Z]) g)).
+Definition dec_groups (ws : list Uint63.int) : list (list nat) := split0 [] (symbols ws).
+Definition ser_groups (g : list (list nat)) : list Z :=
+  concat (map (fun l => map (fun x => Z.of_nat (S x)) l ++ [0%Z]) g) ++ [1022%Z].
 
-(* integer matrices, row-major, entries offset *)
+(* integer matrices, row-major, entries offset by 512 (symbol 1021 = out of range) *)
 Fixpoint chunks (fuel n : nat) (l : list Z) : list (list Z) :=
   match fuel with
   | O => []
   | S k => firstn n l :: chunks k n (skipn n l)
   end.
-Definition dec_mat (nrows ncols : nat) (z : Z) : list (list Z) :=
-  chunks nrows ncols (map (fun d => (d - 32)%Z) (digits 64 z)).
-Definition enc_mat (m : list (list Z)) : Z :=
-  undigits 65536 (map (fun v => (v + 32768)%Z) (concat m)).
+Definition dec_mat (nrows ncols : nat) (ws : list Uint63.int) : list (list Z) :=
+  chunks nrows ncols (map (fun d => (d - 512)%Z) (symbols ws)).
+Definition ser_mat (m : list (list Z)) : list Z :=
+  map (fun v => if ((v <? -512) || (508 <? v))%Z then 1021%Z else (v + 512)%Z) (concat m).
+Definition ser_bool (b : bool) : list Z := [if b then 1%Z else 0%Z].
 
 Fixpoint pairs_of (l : list nat) : list (nat * nat) :=
   match l with
@@ -337,52 +342,67 @@ Definition sub_of_list (l : list nat) : subtraction :=
   | r :: c :: t => ((r, c), pairs_of t)
   | _ => ((O, O), [])
   end.
-Definition dec_subs (z : Z) : list subtraction := map sub_of_list (dec_groups z).
+Definition dec_subs (ws : list Uint63.int) : list subtraction := map sub_of_list (dec_groups ws).
 
 (* one-direction case: groups, visiting order check, expand(compress M) for a concrete M *)
-Definition run_fwd (P : pattern) (ncols : nat) (M CJ : list (list Z)) : list val :=
+Definition run_fwd (P : pattern) (ncols : nat) (M CJ : list (list Z)) : list Z :=
   let g := fwd_groups P ncols in
-  [VZ (enc_groups g);
-   VB (order_ok P ncols (order_by_ID ncols (nbrs P ncols)));
-   VZ (enc_mat (dense (length P) ncols
-              (expand_fwd Z 0%Z P g (compress_fwd Z 0%Z Z.add (mat_of M) ncols g))));
+  ser_groups g
+  ++ ser_bool (order_ok P ncols (order_by_ID ncols (nbrs P ncols)))
+  ++ ser_mat (dense (length P) ncols
+              (expand_fwd Z 0%Z P g (compress_fwd Z 0%Z Z.add (mat_of M) ncols g)))
    (* expansion of an arbitrary compressed matrix (not necessarily a product):
       _expand_jac and colored_jac_iter must both give this *)
-   VZ (enc_mat (dense (length P) ncols (expand_fwd Z 0%Z P g (mat_of CJ))))].
+  ++ ser_mat (dense (length P) ncols (expand_fwd Z 0%Z P g (mat_of CJ))).
 
-Definition run_rev (P : pattern) (ncols : nat) (M CJ : list (list Z)) : list val :=
+Definition run_rev (P : pattern) (ncols : nat) (M CJ : list (list Z)) : list Z :=
   let g := rev_groups P ncols in
   let PT := transpose ncols P in
-  [VZ (enc_groups g);
-   VB (order_ok PT (length P) (order_by_ID (length P) (nbrs PT (length P))));
-   VZ (enc_mat (dense (length P) ncols
-              (expand_rev Z 0%Z P g (compress_rev Z 0%Z Z.add (mat_of M) (length P) g))));
-   VZ (enc_mat (dense (length P) ncols (expand_rev Z 0%Z P g (mat_of CJ))))].
+  ser_groups g
+  ++ ser_bool (order_ok PT (length P) (order_by_ID (length P) (nbrs PT (length P))))
+  ++ ser_mat (dense (length P) ncols
+              (expand_rev Z 0%Z P g (compress_rev Z 0%Z Z.add (mat_of M) (length P) g)))
+  ++ ser_mat (dense (length P) ncols (expand_rev Z 0%Z P g (mat_of CJ))).
 
 (* bidirectional case: validator verdict on the implementation's colouring + the concrete
    reconstruction of M with it *)
 Definition run_bidir (P : pattern) (ncols : nat) (M : list (list Z))
-           (fg fnz rg rnz : list (list nat)) (subs : list subtraction) : list val :=
-  [VB (valid_bidir P (length P) ncols fg fnz rg rnz subs);
-   VZ (enc_mat (dense (length P) ncols
-               (jget 0%Z (reconstructZ (mat_of M) (length P) ncols fg fnz rg rnz subs))))].
+           (fg fnz rg rnz : list (list nat)) (subs : list subtraction) : list Z :=
+  ser_bool (valid_bidir P (length P) ncols fg fnz rg rnz subs)
+  ++ ser_mat (dense (length P) ncols
+               (jget 0%Z (reconstructZ (mat_of M) (length P) ncols fg fnz rg rnz subs))).
 
-Definition run_auto (bidir : nat) (P : pattern) (ncols : nat) : list val :=
+Definition run_auto (bidir : nat) (P : pattern) (ncols : nat) : list Z :=
   let s := auto_select bidir (length (fwd_groups P ncols)) (length (rev_groups P ncols)) in
-  [VZ (Z.of_nat (fst s)); VZ (Z.of_nat (snd s))].
+  [Z.of_nat (fst s); Z.of_nat (snd s)].
 
-(* everything about one pattern; the b* arguments are the raw outputs of the real MNCO_bidir
+Fixpoint zlist_eqb (a b : list Z) : bool :=
+  match a, b with
+  | [], [] => true
+  | x :: a', y :: b' => (x =? y)%Z && zlist_eqb a' b'
+  | _, _ => false
+  end.
+
+(* everything about one pattern; the d* / s* arguments are the raw outputs of the real MNCO_bidir
    (direct, then substitution): fwd groups, fwd nonzero rows, rev groups, rev nonzero cols,
-   subtractions, total solves *)
-Definition run_pat (nrows ncols : nat) (code m cj : Z)
-           (dfg dfnz drg drnz dsub : Z) (dn : nat)
-           (sfg sfnz srg srnz ssub : Z) (sn : nat) : val :=
-  let P := pattern_of_code nrows ncols code in
+   subtractions, total solves.  [expected] is the implementation's serialised result; the value is
+   [VB true] when the model's serialised result equals it, the model's stream otherwise. *)
+Definition model_pat (nrows ncols : nat) (code m cj : list Uint63.int)
+           (dfg dfnz drg drnz dsub : list Uint63.int) (dn : nat)
+           (sfg sfnz srg srnz ssub : list Uint63.int) (sn : nat) : list Z :=
+  let P := pattern_of_code nrows ncols (code_of_words code) in
   let M := dec_mat nrows ncols m in
   let CJ := dec_mat nrows ncols cj in
-  VL (run_fwd P ncols M CJ ++ run_rev P ncols M CJ
-      ++ run_bidir P ncols M (dec_groups dfg) (dec_groups dfnz) (dec_groups drg) (dec_groups drnz)
-                   (dec_subs dsub)
-      ++ run_bidir P ncols M (dec_groups sfg) (dec_groups sfnz) (dec_groups srg) (dec_groups srnz)
-                   (dec_subs ssub)
-      ++ run_auto dn P ncols ++ run_auto sn P ncols).
+  run_fwd P ncols M CJ ++ run_rev P ncols M CJ
+  ++ run_bidir P ncols M (dec_groups dfg) (dec_groups dfnz) (dec_groups drg) (dec_groups drnz)
+               (dec_subs dsub)
+  ++ run_bidir P ncols M (dec_groups sfg) (dec_groups sfnz) (dec_groups srg) (dec_groups srnz)
+               (dec_subs ssub)
+  ++ run_auto dn P ncols ++ run_auto sn P ncols.
+
+Definition run_pat (nrows ncols : nat) (code m cj : list Uint63.int)
+           (dfg dfnz drg drnz dsub : list Uint63.int) (dn : nat)
+           (sfg sfnz srg srnz ssub : list Uint63.int) (sn : nat)
+           (expected : list Uint63.int) : val :=
+  let got := model_pat nrows ncols code m cj dfg dfnz drg drnz dsub dn sfg sfnz srg srnz ssub sn in
+  if zlist_eqb got (symbols expected) then VB true else VL (map VZ got).
